@@ -186,7 +186,7 @@ class TypedNode(Node):
     def prev_sibling(self, *, any_kind=False) -> TypedNode | None:
         """Return predecessor `of the same kind` or None if node is first sibling."""
         pc = self._parent._children
-        own_idx = pc.index(self)
+        own_idx = Node.get_index(self)
         if own_idx > 0:
             for idx in range(own_idx - 1, -1, -1):
                 n = pc[idx]
@@ -198,7 +198,7 @@ class TypedNode(Node):
         """Return successor `of the same kind` or None if node is last sibling."""
         pc = self._parent._children
         pc_len = len(pc)
-        own_idx = pc.index(self)
+        own_idx = Node.get_index(self)
 
         if own_idx < pc_len - 2:
             for idx in range(own_idx + 1, pc_len):
@@ -220,7 +220,11 @@ class TypedNode(Node):
             kc = self._parent._children
         else:
             kc = self.parent.get_children(self.kind)
-        return kc.index(self)
+        # NOTE: `list.index()` checks for equality ('=='), not identity!
+        for i, n in enumerate(kc):
+            if n is self:
+                return i
+        raise ValueError(f"{self} is not a child of its parent")
 
     def is_first_sibling(self, *, any_kind=False) -> bool:
         """Return true if this node is the first sibling, i.e. the first child
